@@ -14,6 +14,12 @@ def fpowi (x : Float) : Nat → Float
 def fceil (x : Float) : Int := x.ceil.toInt64.toInt
 def ffloor (x : Float) : Int := x.floor.toInt64.toInt
 def ftrunc (x : Float) : Int := if x < 0 then x.ceil.toInt64.toInt else x.floor.toInt64.toInt
+/-- Python `round(x)` / `torch.round` of a finite double: round half to even -/
+def froundHE (x : Float) : Int :=
+  let f := x.floor
+  let d := x - f
+  let fi := f.toInt64.toInt
+  if d < 0.5 then fi else if 0.5 < d then fi + 1 else if fi % 2 == 0 then fi else fi + 1
 /-- `torch.sum(v, dim=-1)` left to right -/
 def fsum (v : List Float) : Float := v.foldl (· + ·) 0.0
 
